@@ -17,6 +17,7 @@ EXPLANATION = (
     "$exists pre-filter when no default is given (never merged into one mapping, where keys would collide); (d) the "
     "command line value parser tries int before float on the raw token; parse_filter handles str / Mapping / iterable."
     ' The string form of a filter is tokenised at white space only (no second round of quote / escape processing).'
+    ' (g) What cursor[i:j] / iter(cursor) hands out restarts from the stored id list on every iteration; a value token is JSON-decoded only behind _is_json_like.'
 )
 UNDECIDED = "Equivalence of all spellings, CLI casting for every token and exactness of the partition are value-level and not decided."
 
